@@ -1,7 +1,9 @@
 CONSTANTS
   MaxConn = 3
   MaxSteps = 14
+  GenMode = FALSE
 SPECIFICATION MSpec
+VIEW mview
 INVARIANT NeverWedged
 INVARIANT RefusedOnlyWhenBusy
 INVARIANT OneLive
